@@ -326,3 +326,715 @@ def c04(ctx):
 @prop("C05")
 def c05(ctx):
     engine_family(ctx, "c05", {"outside"})
+
+# ---------------------------------------------------------------------------
+# CLI stream (black-box runs of the built binary vs the Lean loop model)
+import random, cli as cl
+
+GENERATED_HEADERS = [
+    ("gen-line", "// Code generated by protoc. DO NOT EDIT.\n\n", True),
+    ("gen-after-license", "// Copyright 2024.\n\n// Code generated by tool; DO NOT EDIT.\n\n", True),
+    ("gen-at", "// Package doc.\n// @generated by foo\n", True),
+    ("near-noperiod", "// Code generated by protoc. DO NOT EDIT\n\n", False),
+    ("near-lower", "// code generated by protoc. DO NOT EDIT.\n\n", False),
+    ("near-nospace", "//Code generated by protoc. DO NOT EDIT.\n\n", False),
+    ("near-block", "/* Code generated by protoc. DO NOT EDIT. */\n\n", False),
+    ("near-trailing", "// Code generated by protoc. DO NOT EDIT. really\n\n", False),
+    ("at-detached", "// @generated by foo\n\n", False),
+    ("gen-in-block", "/*\n// Code generated by x. DO NOT EDIT.\n*/\n\n", True),
+    ("gen-with-buildtag", "//go:build linux\n\n// Code generated by x. DO NOT EDIT.\n\n", True),
+    ("plain", "", False),
+]
+
+def gen_cases(ctx, mode, n, seed, golden=True):
+    r = run([ctx.harness, "gen", "-repo", REPO, "-mode", mode, "-n", str(n), "-seed", str(seed),
+             f"-golden={'true' if golden else 'false'}"])
+    if r.returncode != 0:
+        ctx.broken("harness", "zzverif gen failed: " + r.stderr[-2000:])
+        return []
+    return [json.loads(l) for l in r.stdout.splitlines() if l.strip()]
+
+UNPARSEABLE = "package bad\n\nfunc {\n"
+ODD_UNMATCHED = [
+    "package odd\r\n\r\nfunc  crlf( ) {\r\n\tzzz( 1 )\r\n}\r\n",
+    "//go:build ignore\n// +build ignore\n\npackage odd\n\n\n\nfunc   spaced ( )   {   zzz (1)   }\n",
+    "package odd;import \"fmt\";func semi(){fmt.Println(`raw\n  string`)}",
+    "/* header */ package odd /* trailing */\n// free comment\nvar (\n  a = 1 // one\n\n\n  b   =   2 /* two */\n)\n",
+    "package odd\n\nfunc tabs() {\n        zzz(1)\n  \tzzz(2)\n}\n",
+]
+
+class Scenario:
+    def __init__(self, sid, patches, files, note=""):
+        self.id, self.patches, self.files, self.note = sid, patches, files, note
+
+def make_scenarios(ctx, cases, n, rng, kinds):
+    """kinds: set of special file kinds to mix in: unparseable, odd, generated, replaceerr"""
+    scen = []
+    usable = [c for c in cases if c.get("patches") and len(c["patches"]) <= 3]
+    for k in range(n):
+        base = rng.choice(usable)
+        files = {}
+        names = ["a/main.go", "b.go", "c/deep/x.go", "d_test.go", "a/z.go", "m.go"]
+        rng.shuffle(names)
+        files[names[0]] = base["src"]
+        for nm in names[1:1 + rng.randint(0, 3)]:
+            other = rng.choice(usable)
+            files[nm] = other["src"]
+        note = []
+        if "unparseable" in kinds and rng.random() < 0.35:
+            files[rng.choice(["a/bad.go", "zbad.go", "0bad.go"])] = UNPARSEABLE
+            note.append("unparseable")
+        if "odd" in kinds and rng.random() < 0.8:
+            files[rng.choice(["odd.go", "a/odd.go"])] = rng.choice(ODD_UNMATCHED)
+            note.append("odd")
+        if "generated" in kinds and rng.random() < 0.7:
+            name, hdr, isgen = rng.choice(GENERATED_HEADERS)
+            files["gen/" + name.replace("-", "_") + ".go"] = hdr + base["src"]
+            note.append("generated:" + name)
+        scen.append(Scenario(f"s{k}", base["patches"], files, " ".join(note)))
+    return scen
+
+def setup_scenario(ctx, sc):
+    root = ctx.scratch(sc.id)
+    for i, p in enumerate(sc.patches):
+        with open(os.path.join(root, f"p{i}.patch"), "w") as f:
+            f.write(p)
+    cl.write_tree(root, sc.files)
+    pargs = []
+    for i in range(len(sc.patches)):
+        pargs += ["-p", f"p{i}.patch"]
+    return root, pargs
+
+def flags_of(opts):
+    m = {"diff": "--diff", "print": "--print-only", "si": "--skip-import-processing", "sg": "--skip-generated", "v": "-v"}
+    return [m[o] for o in opts]
+
+def classify_all(ctx, root, pargs, rels, opts):
+    """solo observations; --skip-import-processing changes bytes so it is part of the key"""
+    base_flags = ["--skip-import-processing"] if "si" in opts else []
+    infos = []
+    for rel in sorted(rels, key=lambda r: os.path.join(root, r)):
+        info = cl.classify(ctx.gopatch, root, pargs, rel, base_flags)
+        if "sg" in opts:
+            g = cl.classify(ctx.gopatch, root, pargs, rel, base_flags + ["--skip-generated"])
+            info["generated"] = g["generated"]
+        infos.append(info)
+    return infos
+
+def observe(ctx, root, pargs, opts, targets):
+    before = cl.digest(root)
+    code, out, err = cl.gopatch(ctx.gopatch, root, pargs + flags_of(opts) + targets)
+    after = cl.digest(root)
+    return {"exit": code, "stdout": out, "stderr": err.decode("utf-8", "replace"), "before": before, "after": after}
+
+def split_diff(stdout_text):
+    """split --diff stdout into per-file chunks keyed by the name in the --- header"""
+    chunks, cur, name = {}, [], None
+    for line in stdout_text.split("\n"):
+        if line.startswith("--- "):
+            if name is not None:
+                chunks[name] = "\n".join(cur)
+            name, cur = line[4:], [line]
+        else:
+            cur.append(line)
+    if name is not None:
+        chunks[name] = "\n".join(cur)
+    return chunks
+
+def compare_run(root, opts, infos, pred, obs):
+    """-> dict category -> list of problem strings"""
+    probs = {"write": [], "stdout": [], "desc": [], "exit": [], "report": [], "unmatched": []}
+    writes = {o[1]: o[2] for o in pred["outs"] if o[0] == "w"}
+    dry = "diff" in opts or "print" in opts
+    # disk
+    b, a = obs["before"], obs["after"]
+    for rel in sorted(set(b) | set(a)):
+        absn = os.path.join(root, rel)
+        if rel not in a or rel not in b:
+            probs["write"].append(f"{rel}: created or removed")
+            continue
+        if a[rel] == b[rel]:
+            if absn in writes and writes[absn].encode("utf-8", "surrogateescape") != b[rel][0]:
+                probs["write"].append(f"{rel}: expected to be rewritten but untouched")
+            continue
+        if b[rel][0] == b"<dir>":
+            continue
+        if absn not in writes:
+            which = "unmatched" if not dry else "write"
+            probs[which].append(f"{rel}: modified on disk (content changed={a[rel][0]!=b[rel][0]}, mtime changed={a[rel][2]!=b[rel][2]}, inode changed={a[rel][3]!=b[rel][3]}) although no write is expected")
+        elif a[rel][0] != writes[absn].encode("utf-8", "surrogateescape"):
+            probs["write"].append(f"{rel}: bytes on disk differ from the bytes printed by --print-only for the same input")
+    # stdout
+    exp_chunks = [o for o in pred["outs"] if o[0] == "o"]
+    so = obs["stdout"].decode("utf-8", "surrogateescape")
+    if "diff" in opts:
+        got = split_diff(so)
+        want = {}
+        order = []
+        rest = so
+        for o in exp_chunks:
+            if o[1].startswith("\x00DIFF\x00"):
+                _, _, name, bytes_ = o[1].split("\x00", 3)
+                want[name] = bytes_
+                order.append(name)
+        if sorted(got) != sorted(want):
+            probs["stdout"].append(f"--diff printed diffs for {sorted(got)} but the patched files are {sorted(want)}")
+        else:
+            by_prov = {i["provided"]: i for i in infos}
+            for name, bytes_ in want.items():
+                orig = by_prov[name]["content"].decode("utf-8", "surrogateescape")
+                # drop verbose log lines that follow the diff body
+                body = "\n".join(l for l in got[name].split("\n") if not re.match(r"^(generated file )?/.*: (skipped|patched|failed.*)$", l))
+                res = cl.apply_unified_diff(orig, body)
+                if res is None or res.rstrip("\n") != bytes_.rstrip("\n"):
+                    probs["stdout"].append(f"{name}: applying the printed diff to the original does not give the bytes --print-only prints")
+    else:
+        want = "".join(o[1] for o in exp_chunks)
+        if so != want:
+            probs["stdout"].append(f"stdout differs from the prediction (got {len(so)} bytes, want {len(want)} bytes)")
+    # stderr: description lines, in order, and the error line
+    err_lines = [l for l in obs["stderr"].split("\n") if l]
+    want_desc = [o[1] for o in pred["outs"] if o[0] == "e"]
+    nerr = sum(1 for o in pred["outs"] if o[0] in ("err", "lerr"))
+    got_desc = err_lines[:len(err_lines) - (1 if nerr else 0)] if err_lines else []
+    if got_desc != want_desc:
+        probs["desc"].append(f"descriptions on stderr {got_desc[:4]} differ from expected {want_desc[:4]}")
+    if obs["exit"] != pred["exit"]:
+        probs["exit"].append(f"exit status {obs['exit']}, expected {pred['exit']}")
+    for o in pred["outs"]:
+        if o[0] in ("err", "lerr"):
+            m = re.search(r"(/\S+?\.go)", o[1])
+            if m and m.group(1) not in obs["stderr"]:
+                probs["report"].append(f"stderr does not name {m.group(1)}")
+    return probs
+
+CLI_RULE = ("scenarios = a patch (from /repo/testdata or generated as for the engine stream) and a directory with its matching "
+            "file plus unrelated files, optionally an unparseable file, oddly formatted unmatched files (CRLF, build tags, "
+            "one-line, block comments) and files with generated-code headers; the real gopatch binary built from the tree is "
+            "run in a scratch directory; per-file outcomes are observed by solo --print-only -v runs and fed to the Lean model "
+            "runFiles, whose predicted writes / stdout / stderr descriptions / exit status for the grouped run in the mode "
+            "under test are compared with the observed run (disk digest incl. mtime and inode). Non-trivial = at least one "
+            "file patched or one failure; distinct = distinct (patch, file set, flags).")
+
+def cli_family(ctx, kinds, optsets, categories, n_quick, n_thorough, gen_mode="mix", targets_fn=None, post=None):
+    ctx.rule = CLI_RULE + f" Compared for this property: {sorted(categories)}; flag sets: {optsets}."
+    rng = random.Random(ctx.seed)
+    n = n_quick if ctx.tier == "quick" else n_thorough
+    cases = gen_cases(ctx, gen_mode, 150 if ctx.tier == "quick" else 1500, ctx.seed)
+    scen = make_scenarios(ctx, cases, n, rng, kinds)
+    def one(sc):
+        out = []
+        root, pargs = setup_scenario(ctx, sc)
+        rels = sorted(sc.files)
+        for k, opts in enumerate(optsets):
+            work = root
+            if not ("diff" in opts or "print" in opts):
+                work = f"{root}-w{k}"
+                shutil.copytree(root, work, symlinks=True)
+                ctx.scratch_dirs.append(work)
+            infos = classify_all(ctx, work, pargs, rels, opts)
+            if any(i["apply"][0] == "unknown" for i in infos):
+                out.append(("unknown", sc, opts, infos, None, None, None))
+                continue
+            pred = cl.model_predict(ctx.driver, [(sc.id, opts, infos)]).get(sc.id)
+            targets = targets_fn(rng, sc) if targets_fn else ["."]
+            obs = observe(ctx, work, pargs, opts, targets)
+            out.append(("run", sc, opts, infos, pred, obs, work))
+        return out
+    with ThreadPoolExecutor(max_workers=8) as ex:
+        all_runs = list(ex.map(one, scen))
+    for runs in all_runs:
+        for kind, sc, opts, infos, pred, obs, work in runs:
+            ctx.evaluations += 1
+            if kind == "unknown":
+                ctx.count("unclassifiable")
+                continue
+            probs = compare_run(work, opts, infos, pred, obs)
+            ctx.count("flags:" + "+".join(opts or ["default"]))
+            kinds_seen = sorted(set(i["apply"][0] for i in infos))
+            ctx.count("outcomes:" + ",".join(kinds_seen))
+            if any(i["apply"][0] != "nomatch" or not i["parses"] for i in infos):
+                ctx.nontrivial.add(sc.id + "|" + "+".join(opts))
+            if len(ctx.samples) < 3:
+                ctx.sample({"scenario": sc.id, "note": sc.note, "flags": opts, "files": sorted(sc.files),
+                            "patch": sc.patches[0][:300], "exit": obs["exit"],
+                            "outcomes": {i["provided"]: i["apply"][0] for i in infos}})
+            found = [p for c in categories for p in probs[c]]
+            if post:
+                found += post(ctx, sc, opts, infos, pred, obs, work)
+            if found:
+                ctx.violation("; ".join(found[:4]), {
+                    "input": {"patches": sc.patches, "files": sc.files, "flags": flags_of(opts)},
+                    "observed": {"exit": obs["exit"], "stderr": obs["stderr"][-2000:], "stdout": obs["stdout"][-2000:].decode("utf-8", "replace")},
+                    "predicted": {"exit": pred["exit"], "outs": [list(o)[:2] + [str(o[2])[:300]] if len(o) > 2 else list(o) for o in pred["outs"]][:20]},
+                    "problems": found,
+                    "reproduce": "create files and p<i>.patch in a directory, run: gopatch -p p0.patch [...] <flags> ."})
+
+@prop("C06")
+def c06(ctx):
+    def post(ctx, sc, opts, infos, pred, obs, work):
+        # the property itself, stated directly on the observation for unmatched files
+        out = []
+        for i in infos:
+            if i["parses"] and i["content"] is not None and i["apply"][0] == "nomatch":
+                rel = i["provided"]
+                if obs["before"].get(rel) != obs["after"].get(rel):
+                    out.append(f"{rel}: unmatched file was touched on disk")
+                if "diff" in opts and ("--- " + rel) in obs["stdout"].decode("utf-8", "replace"):
+                    out.append(f"{rel}: unmatched file appears in the diff")
+                if any(l.startswith(rel + ":") for l in obs["stderr"].split("\n")):
+                    out.append(f"{rel}: description printed for an unmatched file")
+        return out
+    cli_family(ctx, {"odd"}, [[], ["print"], ["diff"], ["print", "si"], ["sg"]],
+               {"unmatched", "stdout", "exit"}, 30, 600, post=post)
+
+@prop("C12")
+def c12(ctx):
+    cli_family(ctx, {"odd", "generated"},
+               [[], ["print"], ["diff"], ["diff", "v"], ["print", "si"], ["diff", "sg"], ["si"], ["print", "sg", "si"], ["v"]],
+               {"write", "stdout", "desc"}, 25, 500)
+
+def matching_cases(ctx, cases, want, rng):
+    """cases whose patch rewrites their own source (observed by a solo run)"""
+    out = []
+    pool = [c for c in cases if c.get("patches")]
+    rng.shuffle(pool)
+    for c in pool:
+        if len(out) >= want:
+            break
+        sc = Scenario("probe", c["patches"], {"m.go": c["src"]})
+        root, pargs = setup_scenario(ctx, sc)
+        info = cl.classify(ctx.gopatch, root, pargs, "m.go", [])
+        shutil.rmtree(root, ignore_errors=True)
+        if info["apply"][0] == "ok":
+            out.append(c)
+    return out
+
+@prop("C18")
+def c18(ctx):
+    ctx.rule = CLI_RULE + (" For this property the table of header shapes (marker line, marker after a licence header, @generated in "
+                           "the package comment, build tag + marker, six near-miss spellings, @generated in a detached comment, marker "
+                           "after the package clause, no header) is enumerated exhaustively against patches that do match the file body; "
+                           "the model side evaluates checkGenerated (Lean) on the comment structure.")
+    rng = random.Random(ctx.seed)
+    cases = gen_cases(ctx, "mix", 120, ctx.seed)
+    bases = matching_cases(ctx, cases, 3 if ctx.tier == "quick" else 25, rng)
+    headers = GENERATED_HEADERS + [("marker-after-package", None, False), ("marker-in-body", None, False)]
+    scen = []
+    for bi, base in enumerate(bases):
+        for name, hdr, isgen in headers:
+            src = base["src"]
+            if hdr is None and name == "marker-after-package":
+                src = src.replace("\n", "\n// Code generated by x. DO NOT EDIT.\n", 1)
+            elif hdr is None:
+                src = src + "\n// Code generated by x. DO NOT EDIT.\n"
+            else:
+                src = hdr + src
+            sc = Scenario(f"b{bi}-{name}", base["patches"], {"g/" + name.replace("-", "_") + ".go": src, "plain.go": base["src"]},
+                          note=f"header={name} expect_generated={isgen}")
+            sc.expect = isgen
+            scen.append(sc)
+    optsets = [["sg"], ["sg", "print"], ["sg", "diff"], ["print"], [], ["sg", "v"]]
+    ctx.extra["exhaustive"] = True
+    ctx.extra["header_shapes"] = [h[0] for h in headers]
+    def one(sc):
+        root, pargs = setup_scenario(ctx, sc)
+        res = []
+        for k, opts in enumerate(optsets):
+            work = root
+            if not ("diff" in opts or "print" in opts):
+                work = f"{root}-w{k}"
+                shutil.copytree(root, work)
+                ctx.scratch_dirs.append(work)
+            infos = classify_all(ctx, work, pargs, sorted(sc.files), opts)
+            pred = cl.model_predict(ctx.driver, [(sc.id, opts, infos)]).get(sc.id)
+            obs = observe(ctx, work, pargs, opts, ["."])
+            res.append((opts, infos, pred, obs, work))
+        return sc, res
+    with ThreadPoolExecutor(max_workers=8) as ex:
+        results = list(ex.map(one, scen))
+    for sc, res in results:
+        for opts, infos, pred, obs, work in res:
+            ctx.evaluations += 1
+            ctx.nontrivial.add(sc.id + "+".join(opts))
+            ctx.count("flags:" + "+".join(opts or ["default"]))
+            gi = [i for i in infos if i["provided"].startswith("g/")][0]
+            found = []
+            probs = compare_run(work, opts, infos, pred, obs)
+            for c in ("write", "stdout", "desc", "unmatched", "exit"):
+                found += probs[c]
+            if "sg" in opts:
+                # the property itself: generated <=> completely untouched
+                rel = gi["provided"]
+                touched = obs["before"].get(rel) != obs["after"].get(rel)
+                so = obs["stdout"].decode("utf-8", "replace")
+                shown = (rel in so) if "diff" in opts else False
+                if sc.expect and (touched or shown or any(l.startswith(rel + ":") for l in obs["stderr"].split("\n"))):
+                    found.append(f"{rel}: generated file was processed under --skip-generated")
+                if sc.expect != gi["generated"]:
+                    found.append(f"{rel}: header shape {sc.note}: skip decision of the binary is {gi['generated']}")
+            if len(ctx.samples) < 3:
+                ctx.sample({"scenario": sc.id, "note": sc.note, "flags": opts, "exit": obs["exit"]})
+            if found:
+                ctx.violation("; ".join(found[:4]), {
+                    "input": {"patches": sc.patches, "files": sc.files, "flags": flags_of(opts)},
+                    "observed": {"exit": obs["exit"], "stderr": obs["stderr"][-1500:]},
+                    "problems": found})
+    # the Lean predicate against the binary's decision, on the comment structure of each header
+    gen_predicate_check(ctx, scen)
+
+def gen_predicate_check(ctx, scen):
+    """Lean checkGenerated on comment structure extracted by go/parser (harness `comments`)
+    vs expectation table."""
+    d = ctx.scratch("genpred")
+    lines = []
+    exp = {}
+    for k, sc in enumerate(scen):
+        gname = [n for n in sc.files if n.startswith("g/")][0]
+        p = os.path.join(d, f"f{k}.go")
+        with open(p, "w") as f:
+            f.write(sc.files[gname])
+        lines.append(p)
+        exp[f"f{k}"] = sc.expect
+    r = subprocess.run([ctx.harness, "comments"], input="\n".join(lines) + "\n", stdout=subprocess.PIPE, stderr=subprocess.PIPE, text=True)
+    if r.returncode != 0:
+        ctx.broken("harness", "zzverif comments failed: " + r.stderr[-1000:])
+        return
+    m = subprocess.run([ctx.driver], input=r.stdout, stdout=subprocess.PIPE, stderr=subprocess.PIPE, text=True)
+    for l in m.stdout.splitlines():
+        sx = parse_sx(l)
+        if sx and sx[0] == "res":
+            ctx.evaluations += 1
+            got = sx[2] == "1"
+            if got != exp.get(sx[1]):
+                ctx.broken("model", f"Lean checkGenerated disagrees with the expectation table on {sx[1]}")
+
+# --- C07 -------------------------------------------------------------------
+MISFIT = [
+    # (patch, source) pairs whose rewrite is not valid Go in some positions
+    ("@@\nvar x expression\n@@\n-foo(x)\n+T{x}\n",
+     "package a\n\nfunc f() {\n\tif foo(1) == y {\n\t}\n\tz := foo(2)\n\t_ = z\n}\n"),
+    ("@@\nvar x expression\n@@\n-foo(x)\n+T{x}\n",
+     "package a\n\nfunc f() {\n\tz := foo(2)\n\t_ = z\n}\n"),
+    ("@@\nvar x expression\n@@\n-foo(x)\n+struct{ A int }{x}\n",
+     "package a\n\nfunc f() {\n\tfor foo(1).ok() {\n\t}\n}\n"),
+    ("@@\nvar x expression\n@@\n-foo(x)\n+pkg.T{A: x}\n",
+     "package a\n\nfunc f() {\n\tswitch foo(1) {\n\tcase 1:\n\t}\n}\n"),
+    ("@@\nvar x, y expression\n@@\n-foo(x, y)\n+map[string]int{x: y}\n",
+     "package a\n\nfunc f() {\n\tif v := foo(\"a\", 1); v != nil {\n\t}\n\tfor range foo(\"b\", 2) {\n\t}\n}\n"),
+    ("@@\nvar x expression\n@@\n-foo(x)\n+[]int{x}\n",
+     "package a\n\nfunc f() {\n\tif len(foo(1)) > 0 {\n\t}\n\tif foo(2)[0] > 0 {\n\t}\n}\n"),
+]
+
+def emitted_parse_check(ctx, contents):
+    """contents: list of (label, bytes) -> list of labels that do not parse"""
+    if not contents:
+        return []
+    d = ctx.scratch("parse")
+    names = []
+    for k, (label, data) in enumerate(contents):
+        p = os.path.join(d, f"e{k}.go")
+        with open(p, "wb") as f:
+            f.write(data)
+        names.append(p)
+    r = subprocess.run([ctx.harness, "parses"], input="\n".join(names) + "\n", stdout=subprocess.PIPE, text=True)
+    shutil.rmtree(d, ignore_errors=True)
+    flags = r.stdout.split()
+    return [contents[i][0] for i, f in enumerate(flags) if f != "1"]
+
+@prop("C07")
+def c07(ctx):
+    def post(ctx, sc, opts, infos, pred, obs, work):
+        contents = []
+        by_prov = {i["provided"]: i for i in infos}
+        for rel in obs["after"]:
+            if rel.endswith(".go") and rel in obs["before"] and obs["after"][rel][0] != obs["before"][rel][0]:
+                contents.append((f"{rel} as written in place", obs["after"][rel][0]))
+        so = obs["stdout"].decode("utf-8", "surrogateescape")
+        if "print" in opts:
+            # each patched file's printed bytes were observed solo; they are what the grouped run prints
+            for i in infos:
+                if i["apply"][0] == "ok":
+                    b = i["apply"][1]
+                    contents.append((f"{i['provided']} as printed by --print-only", b if isinstance(b, bytes) else b.encode()))
+        if "diff" in opts:
+            for name, chunk in split_diff(so).items():
+                if name in by_prov and by_prov[name]["content"] is not None:
+                    res = cl.apply_unified_diff(by_prov[name]["content"].decode("utf-8", "surrogateescape"), chunk)
+                    if res is not None:
+                        contents.append((f"{name} as implied by --diff", res.encode("utf-8", "surrogateescape")))
+        bad = emitted_parse_check(ctx, contents)
+        ctx.count("emitted_contents", len(contents))
+        out = [f"{b}: emitted content does not parse although gopatch reported success for it" for b in bad]
+        return out
+    ctx.extra["misfit_table"] = len(MISFIT)
+    rng = random.Random(ctx.seed)
+    # part 1: table of rewrites that do not fit, in every mode and flag combination
+    scen = []
+    for k, (patch, src) in enumerate(MISFIT):
+        scen.append(Scenario(f"misfit{k}", [patch], {"m.go": src, "other.go": "package a\n\nfunc g() { foo(7) }\n"}, "misfit"))
+    optsets = [[], ["si"], ["print"], ["print", "si"], ["diff"], ["diff", "si"]]
+    run_scenarios(ctx, scen, optsets, {"write", "stdout", "exit"}, post)
+    # a rewrite that does not parse must fail with and without import processing alike
+    for sc in scen:
+        root, pargs = setup_scenario(ctx, sc)
+        a = cl.gopatch(ctx.gopatch, root, pargs + ["--print-only", "m.go"])
+        b = cl.gopatch(ctx.gopatch, root, pargs + ["--print-only", "--skip-import-processing", "m.go"])
+        ctx.evaluations += 1
+        if (a[0] == 0) != (b[0] == 0):
+            ctx.violation(f"{sc.id}: exit {a[0]} with import processing but {b[0]} with --skip-import-processing",
+                          {"input": {"patches": sc.patches, "files": sc.files}, "with": a[2].decode()[-500:], "without": b[2].decode()[-500:]})
+    # part 2: generated scenarios
+    ctx.rule = CLI_RULE + (" Additionally every emitted content (written, printed, implied by the diff) is parsed with go/parser, "
+                           "and a table of rewrites that do not fit syntactically (composite literals in if/for/switch headers) is run in all modes.")
+    n = 20 if ctx.tier == "quick" else 500
+    cases = gen_cases(ctx, "c03", 150 if ctx.tier == "quick" else 1500, ctx.seed)
+    scen2 = make_scenarios(ctx, cases, n, rng, {"odd"})
+    run_scenarios(ctx, scen2, [[], ["si"], ["print", "si"], ["diff", "si"]], {"write", "exit"}, post)
+    # library API
+    api_parse_check(ctx, cases[: (100 if ctx.tier == "quick" else 1500)] +
+                    [{"id": f"misfit{k}", "patches": [p], "src": s} for k, (p, s) in enumerate(MISFIT)])
+
+def run_scenarios(ctx, scen, optsets, categories, post=None):
+    def one(sc):
+        out = []
+        root, pargs = setup_scenario(ctx, sc)
+        for k, opts in enumerate(optsets):
+            work = root
+            if not ("diff" in opts or "print" in opts):
+                work = f"{root}-w{k}"
+                shutil.copytree(root, work, symlinks=True)
+                ctx.scratch_dirs.append(work)
+            infos = classify_all(ctx, work, pargs, sorted(sc.files), opts)
+            if any(i["apply"][0] == "unknown" for i in infos):
+                out.append((sc, opts, infos, None, None, work))
+                continue
+            pred = cl.model_predict(ctx.driver, [(sc.id, opts, infos)]).get(sc.id)
+            obs = observe(ctx, work, pargs, opts, ["."])
+            out.append((sc, opts, infos, pred, obs, work))
+        return out
+    with ThreadPoolExecutor(max_workers=8) as ex:
+        res = list(ex.map(one, scen))
+    for runs in res:
+        for sc, opts, infos, pred, obs, work in runs:
+            ctx.evaluations += 1
+            if pred is None:
+                ctx.count("unclassifiable")
+                continue
+            ctx.count("flags:" + "+".join(opts or ["default"]))
+            ctx.count("outcomes:" + ",".join(sorted(set(i["apply"][0] for i in infos))))
+            if any(i["apply"][0] != "nomatch" or not i["parses"] for i in infos):
+                ctx.nontrivial.add(sc.id + "|" + "+".join(opts))
+            if len(ctx.samples) < 3:
+                ctx.sample({"scenario": sc.id, "note": sc.note, "flags": opts, "files": sorted(sc.files),
+                            "patch": sc.patches[0][:300], "exit": obs["exit"],
+                            "outcomes": {i["provided"]: i["apply"][0] for i in infos}})
+            probs = compare_run(work, opts, infos, pred, obs)
+            found = [p for c in categories for p in probs[c]]
+            if post:
+                found += post(ctx, sc, opts, infos, pred, obs, work)
+            if found:
+                ctx.violation("; ".join(found[:4]), {
+                    "input": {"patches": sc.patches, "files": sc.files, "flags": flags_of(opts)},
+                    "observed": {"exit": obs["exit"], "stderr": obs["stderr"][-2000:]},
+                    "problems": found,
+                    "reproduce": "create files and p<i>.patch in a directory, run: gopatch -p p0.patch [...] <flags> ."})
+
+def run_api(ctx, cases, rep=2, conc=0):
+    d = ctx.scratch("api")
+    p = os.path.join(d, "in.jsonl")
+    with open(p, "w") as f:
+        for c in cases:
+            if len(c.get("patches", [])) == 1:
+                f.write(json.dumps(c) + "\n")
+    r = run([ctx.harness, "api", "-inputs", p, "-rep", str(rep), "-conc", str(conc)], timeout=1800)
+    shutil.rmtree(d, ignore_errors=True)
+    if r.returncode != 0:
+        ctx.broken("harness", "zzverif api failed: " + r.stderr[-2000:])
+        return []
+    return [json.loads(l) for l in r.stdout.splitlines() if l.strip()]
+
+def api_parse_check(ctx, cases):
+    outs = run_api(ctx, cases)
+    byid = {c["id"]: c for c in cases}
+    contents = []
+    for o in outs:
+        ctx.evaluations += 1
+        if o.get("panic"):
+            continue
+        if not o.get("parse_err") and not o.get("err"):
+            contents.append((o["id"], o["out"].encode("utf-8", "surrogateescape")))
+    bad = emitted_parse_check(ctx, contents)
+    ctx.count("api_outputs", len(contents))
+    for b in bad:
+        c = byid[b]
+        ctx.violation("library API returned content that does not parse", {"input": {"patches": c["patches"], "src": c["src"]}})
+
+# --- C14 -------------------------------------------------------------------
+@prop("C14")
+def c14(ctx):
+    ctx.rule = CLI_RULE + (" For this property every grouped run is predicted from solo runs of each file (file independence), the "
+                           "target arguments are permuted / repeated / given as directories and files mixed, neighbours that match, "
+                           "fail to parse or are generated are mixed in, and the library API is called repeatedly and from 8 goroutines "
+                           "on one parsed patch.")
+    rng = random.Random(ctx.seed)
+    n = 25 if ctx.tier == "quick" else 600
+    cases = gen_cases(ctx, "mix", 150 if ctx.tier == "quick" else 2000, ctx.seed)
+    scen = make_scenarios(ctx, cases, n, rng, {"unparseable", "generated", "odd"})
+    optsets = [["print"], ["diff"], [], ["print", "sg"]]
+    def one(sc):
+        out = []
+        root, pargs = setup_scenario(ctx, sc)
+        rels = sorted(sc.files)
+        for k, opts in enumerate(optsets):
+            work = root
+            if not ("diff" in opts or "print" in opts):
+                work = f"{root}-w{k}"
+                shutil.copytree(root, work, symlinks=True)
+                ctx.scratch_dirs.append(work)
+            infos = classify_all(ctx, work, pargs, rels, opts)
+            if any(i["apply"][0] == "unknown" for i in infos):
+                continue
+            # argument lists: explicit files in random order with repeats, dirs, ./...
+            r2 = random.Random(hash((sc.id, k, ctx.seed)) & 0xffffffff)
+            shuffled = rels[:]
+            r2.shuffle(shuffled)
+            targs = r2.choice([["."], ["./..."], shuffled, shuffled + shuffled[:1], list(reversed(rels)), ["a", "."] if any(r.startswith("a/") for r in rels) else ["."]])
+            # `provided` differs with how the file was named; predictions use paths relative to cwd, which is what
+            # filepath.Rel(cwd, abs) yields for every form above
+            pred = cl.model_predict(ctx.driver, [(sc.id, opts, infos)]).get(sc.id)
+            obs = observe(ctx, work, pargs, opts, targs)
+            # determinism: same command again on a fresh copy
+            out.append((sc, opts, infos, pred, obs, work, targs))
+        return out
+    with ThreadPoolExecutor(max_workers=8) as ex:
+        res = list(ex.map(one, scen))
+    for runs in res:
+        for sc, opts, infos, pred, obs, work, targs in runs:
+            ctx.evaluations += 1
+            ctx.count("args:" + ("dir" if targs in (["."], ["./..."]) else "files"))
+            if any(i["apply"][0] != "nomatch" or not i["parses"] for i in infos):
+                ctx.nontrivial.add(sc.id + "|" + "+".join(opts) + "|" + " ".join(targs))
+            if len(ctx.samples) < 3:
+                ctx.sample({"scenario": sc.id, "note": sc.note, "flags": opts, "args": targs, "files": sorted(sc.files),
+                            "outcomes": {i["provided"]: i["apply"][0] for i in infos}})
+            probs = compare_run(work, opts, infos, pred, obs)
+            found = probs["write"] + probs["stdout"] + probs["desc"] + probs["unmatched"]
+            if found:
+                ctx.violation("grouped run differs from the solo runs of its files: " + "; ".join(found[:3]), {
+                    "input": {"patches": sc.patches, "files": sc.files, "flags": flags_of(opts), "args": targs},
+                    "observed": {"exit": obs["exit"], "stderr": obs["stderr"][-1500:]}, "problems": found})
+    # library API: repeated and concurrent Apply on one parsed patch
+    outs = run_api(ctx, cases[: (150 if ctx.tier == "quick" else 2000)], rep=3, conc=8)
+    byid = {c["id"]: c for c in cases}
+    for o in outs:
+        ctx.evaluations += 1
+        if o.get("parse_err"):
+            continue
+        ctx.count("api_cases")
+        if not o["repeat_same"] or not o["conc_same"]:
+            c = byid[o["id"]]
+            ctx.violation(f"Apply is not repeatable (sequential same={o['repeat_same']}, concurrent same={o['conc_same']})",
+                          {"input": {"patches": c["patches"], "src": c["src"]}})
+
+# --- C16 -------------------------------------------------------------------
+REPLACE_ERR = ("@@\nvar x expression\n@@\n-foo(x)\n+bar.x\n", "package a\n\nfunc f() {\n\tfoo(g(1))\n}\n")
+
+@signature("write-fault")
+def sig_write_fault(sig, what, payload):
+    return payload.get("fault") == "fsize" and "partial" in what
+
+@prop("C16")
+def c16(ctx):
+    ctx.level = "proof"
+    ctx.rule = CLI_RULE + (" For this property failures are enumerated: a file that does not parse / whose rewrite fails / whose result "
+                           "is not valid Go, at the first, middle and last position of a 3..5 file run; a missing path argument; a missing "
+                           "patch file; a patches-file naming a missing patch; an unreadable target (run as uid 65534); and a write cut "
+                           "short by RLIMIT_FSIZE at several byte counts.")
+    rng = random.Random(ctx.seed)
+    cases = gen_cases(ctx, "mix", 120 if ctx.tier == "quick" else 1500, ctx.seed)
+    good = matching_cases(ctx, cases, 4 if ctx.tier == "quick" else 40, rng)
+    scen = []
+    for gi, base in enumerate(good):
+        for pos, nm in enumerate(["0first.go", "m/middle.go", "zlast.go"]):
+            for kind, content in (("unparseable", UNPARSEABLE),):
+                files = {"b.go": base["src"], "m/n.go": base["src"], "y.go": rng.choice(ODD_UNMATCHED)}
+                files[nm] = content
+                scen.append(Scenario(f"g{gi}-{kind}-{pos}", base["patches"], files, f"{kind} at {nm}"))
+    # rewrite error and unparseable result at each position
+    for pos, nm in enumerate(["0first.go", "m/middle.go", "zlast.go"]):
+        files = {"b.go": "package a\n\nfunc ok() {\n\tfoo(1)\n}\n", "m/n.go": "package a\n\nfunc ok2() { foo(2) }\n"}
+        files[nm] = REPLACE_ERR[1]
+        scen.append(Scenario(f"replaceerr-{pos}", [REPLACE_ERR[0]], files, f"rewrite error at {nm}"))
+        files = {"b.go": "package a\n\nfunc ok() {\n\tz := foo(1)\n\t_ = z\n}\n", "m/n.go": "package a\n\nfunc ok2() { _ = foo(2) }\n"}
+        files[nm] = MISFIT[0][1]
+        scen.append(Scenario(f"misfit-{pos}", [MISFIT[0][0]], files, f"unparseable result at {nm}"))
+    def post(ctx, sc, opts, infos, pred, obs, work):
+        out = []
+        bad = [i for i in infos if (not i["parses"]) or i["apply"][0] in ("replaceerr", "formaterr")]
+        if bad and obs["exit"] == 0:
+            out.append("exit status 0 although a file could not be processed")
+        for i in bad:
+            if i["abs"] not in obs["stderr"] and i["provided"] not in obs["stderr"]:
+                out.append(f"stderr does not name {i['provided']}")
+        return out
+    run_scenarios(ctx, scen, [[], ["print"], ["diff"]], {"write", "stdout", "exit", "report", "unmatched"}, post)
+    # missing path / missing patch / patches-file naming a missing patch
+    root = ctx.scratch("missing")
+    cl.write_tree(root, {"a.go": "package a\n\nfunc f() { foo(1) }\n", "p.patch": "@@\n@@\n-foo(1)\n+bar(1)\n",
+                         "list.txt": "p.patch\nnope.patch\n"})
+    for args, must in ((["-p", "p.patch", "nonexist.go", "a.go"], ["nonexist.go", "no such file"]),
+                       (["-p", "missing.patch", "a.go"], ["missing.patch", "no such file"]),
+                       (["-P", "list.txt", "a.go"], ["nope.patch", "no such file"]),
+                       (["-p", "p.patch", "a.go", "nodir/..."], ["nodir", "no such file"])):
+        before = cl.digest(root)
+        code, out, err = cl.gopatch(ctx.gopatch, root, args + ["--print-only"])
+        ctx.evaluations += 1
+        ctx.nontrivial.add("missing:" + " ".join(args))
+        e = err.decode("utf-8", "replace")
+        if code == 0 or not all(m in e for m in must):
+            ctx.violation(f"gopatch {' '.join(args)}: exit {code}, stderr {e.strip()[:200]!r} does not name the path and the cause",
+                          {"input": {"args": args, "files": {"a.go": "package a", "p.patch": "...", "list.txt": "p.patch\\nnope.patch"}}})
+        if cl.digest(root) != before:
+            ctx.violation(f"gopatch {' '.join(args)} --print-only modified the directory", {"input": {"args": args}})
+    # unreadable target, as an unprivileged user
+    if os.geteuid() == 0 and shutil.which("setpriv"):
+        root = ctx.scratch("unread")
+        os.chmod(root, 0o755)
+        cl.write_tree(root, {"a.go": UNPARSEABLE, "b.go": "package a\n\nfunc f() { foo(2) }\n", "c.go": "package a\n\nfunc f() { foo(3) }\n",
+                             "p.patch": "@@\nvar x expression\n@@\n-foo(x)\n+bar(x)\n"})
+        for n in os.listdir(root):
+            os.chmod(os.path.join(root, n), 0o644)
+        os.chmod(os.path.join(root, "b.go"), 0)
+        binp = os.path.join(root, "gopatch.bin")
+        shutil.copy(ctx.gopatch, binp)
+        os.chmod(binp, 0o755)
+        code, out, err = cl.gopatch(binp, root, ["-p", "p.patch", "--print-only", "."],
+                                    prefix=["setpriv", "--reuid=65534", "--regid=65534", "--clear-groups"])
+        ctx.evaluations += 1
+        ctx.nontrivial.add("unreadable")
+        e = err.decode("utf-8", "replace")
+        so = out.decode("utf-8", "replace")
+        if not (code != 0 and "b.go" in e and "a.go" in e and "bar(3)" in so):
+            ctx.violation("unreadable target: the run must report a.go (parse) and b.go (permission), still patch c.go, and exit non-zero; "
+                          f"got exit {code}, stderr {e.strip()[:300]!r}, stdout has bar(3)={('bar(3)' in so)}",
+                          {"input": {"files": ["a.go unparseable", "b.go mode 000", "c.go foo(3)"], "run": "setpriv --reuid=65534 gopatch -p p.patch --print-only ."}})
+    # write cut short
+    if shutil.which("prlimit"):
+        root = ctx.scratch("fsize")
+        body = "package a\n\nfunc f() {\n" + "".join(f"\tfoo({i})\n" for i in range(400)) + "}\n"
+        patch = "@@\nvar x expression\n@@\n-foo(x)\n+barbaz(x)\n"
+        limits = [0, 1, 512, 4096] if ctx.tier == "quick" else [0, 1, 100, 512, 1024, 2048, 4096, 6000]
+        for lim in limits:
+            cl.write_tree(root, {"a.go": body, "p.patch": patch})
+            code, out, err = cl.gopatch(ctx.gopatch, root, ["-p", "p.patch", "a.go"], prefix=["prlimit", f"--fsize={lim}"])
+            after = open(os.path.join(root, "a.go"), "rb").read()
+            ctx.evaluations += 1
+            ctx.nontrivial.add(f"fsize:{lim}")
+            patched = body.replace("foo(", "barbaz(").encode()
+            if after not in (body.encode(), patched):
+                ctx.violation(f"write cut short after {lim} bytes left a partial file ({len(after)} bytes, neither original nor patched)",
+                              {"fault": "fsize", "limit": lim, "input": {"files": {"a.go": "package a; func f() { foo(0..399) }"}, "patch": patch},
+                               "run": f"prlimit --fsize={lim} gopatch -p p.patch a.go", "exit": code if isinstance(code, int) else -1})
+            elif after == body.encode() and code == 0:
+                ctx.violation(f"write failed at limit {lim} but exit status is 0", {"fault": "fsize-exit", "limit": lim})
